@@ -454,6 +454,28 @@ func ruleSProp(w *World, r *Report) {
 func ruleSPool(w *World, r *Report) {
 	r.rule("S-POOL", "every Put into a package-level sync.Pool is preceded in the same block by Reset() on the same value, with no write to it in between, and the value came from Get of the same pool")
 	n := 0
+	// for a property that talks about particular XPath functions, only the
+	// pools those functions take from matter: what any other user leaves in
+	// such a pool is what they get
+	var relevantPools map[ssa.Value]bool
+	if _, filtered := propFuncs[w.curProp]; filtered {
+		relevantPools = map[ssa.Value]bool{}
+		for _, fn := range w.AllFuncs {
+			if w.irrelevantFn(fn) || !w.RunTime[fn] {
+				continue
+			}
+			if _, isImpl := w.implNames()[rootFn(fn)]; !isImpl {
+				continue
+			}
+			eachInstr(fn, false, func(_ *ssa.Function, in ssa.Instruction) {
+				if ci, ok := in.(ssa.CallInstruction); ok {
+					if g := ci.Common().StaticCallee(); g != nil && g.Name() == "Get" && g.Pkg != nil && g.Pkg.Pkg.Path() == "sync" && len(ci.Common().Args) > 0 {
+						relevantPools[ci.Common().Args[0]] = true
+					}
+				}
+			})
+		}
+	}
 	for _, fn := range w.AllFuncs {
 		for _, b := range fn.Blocks {
 			for i, in := range b.Instrs {
@@ -464,6 +486,9 @@ func ruleSPool(w *World, r *Report) {
 				cc := ci.Common()
 				callee := cc.StaticCallee()
 				if callee == nil || callee.Name() != "Put" || callee.Pkg == nil || callee.Pkg.Pkg.Path() != "sync" {
+					continue
+				}
+				if relevantPools != nil && !relevantPools[cc.Args[0]] {
 					continue
 				}
 				n++
